@@ -54,6 +54,7 @@ M = [
  ("C14", "removals-before-overrides", "tools/potable/__init__.py", "  overrides_list = list(override_dict.values())", "  overrides_list = sorted(override_dict.values(), key=lambda t: t.value is not None)"),
  ("C14", "value-rsplit", "tools/potable/__init__.py", '    key, value = key.split("=", 1)', '    key, value = key.rsplit("=", 1)'),
  ("C14", "list-pair-twice", "tools/potable/_query_actions.py", '  if "potential_form" in parsed_sections:', '  if "pair" in parsed_sections:\n    items.extend(_list_pair(cp))\n  if "potential_form" in parsed_sections:'),
+ ("C15", "revert-own-options", "config/_config_parser.py", "  def options(self, section):", "  def _unused_options(self, section):"),
  ("C03", "setfl-nr-minus-1", "eam_tabulation.py", None, None),
 ]
 def main():
